@@ -679,85 +679,4 @@ def run_reassoc(ctx: core.Ctx) -> None:
                                         ctx.fail(site, "reassociation result is not fold(c1, c2) op x", case, "", str(o), "fold(c1,c2) op x with reassoc")
 
 
-# ------------------------------------------------------------------------------------------------
-# (C) CSE on straight-line blocks
-# ------------------------------------------------------------------------------------------------
-
-def run_cse(ctx: core.Ctx) -> None:
-    from props import c14_tv
-
-    nblocks = 60 if ctx.tier == "quick" else 600
-    lines: list[str] = []
-    expect: list[tuple[str, str]] = []
-    for _ in range(nblocks):
-        t = ctx.rng.choice(["i8", "i32", "index", "i1"])
-        nargs = ctx.rng.randint(1, 3)
-        names = [f"%a{i}" for i in range(nargs)]
-        key_of: dict[str, tuple[str, list[str]]] = {}
-        body: list[str] = []
-        order: list[str] = []
-        pool_t = list(names)
-        pool_b: list[str] = []
-        for k in range(ctx.rng.randint(2, 9)):
-            v = f"%v{k}"
-            r = ctx.rng.random()
-            if r < 0.2:
-                c = ctx.rng.choice([0, 1]) if t == "i1" else ctx.rng.choice([0, 1, 5])
-                body.append(f"{v} = arith.constant {('true' if c else 'false') if t == 'i1' else str(c) + ' : ' + t}")
-                key_of[v] = (f"constant:{c}:{t}", [])
-                pool_t.append(v)
-            elif r < 0.35:
-                a, b = ctx.rng.choice(pool_t), ctx.rng.choice(pool_t)
-                p = ctx.rng.choice(["eq", "slt", "ult"])
-                body.append(f"{v} = arith.cmpi {p}, {a}, {b} : {t}")
-                key_of[v] = (f"cmpi:{p}:{t}", [a, b])
-                (pool_t if t == "i1" else pool_b).append(v)
-            else:
-                op = ctx.rng.choice(["addi", "addi", "muli", "subi", "xori", "divui"])
-                a, b = ctx.rng.choice(pool_t[-4:]), ctx.rng.choice(pool_t[-4:])
-                body.append(f"{v} = arith.{op} {a}, {b} : {t}")
-                key_of[v] = (f"{op}:{t}", [a, b])
-                pool_t.append(v)
-            order.append(v)
-        tys = [("i1" if key_of[v][0].startswith("cmpi") else t) for v in order]
-        text = ("builtin.module {\nfunc.func @main(" + ", ".join(f"{n}: {t}" for n in names) + ") -> (" + ", ".join(tys) + ") {\n  "
-                + "\n  ".join(body) + "\n  func.return " + ", ".join(order) + " : " + ", ".join(tys) + "\n}\n}\n")
-        try:
-            m = c14_tv.parse(text)
-        except Exception as e:  # noqa: BLE001
-            ctx.count("cse.generator_rejected." + core.exc_name(e))
-            continue
-        num = {n: i for i, n in enumerate(names)}
-        for i, v in enumerate(order):
-            num[v] = nargs + i
-        main = next(iter(m.body.ops))
-        ops_before = [o for o in main.body.block.ops if o.name != "func.return"]
-        ident = {id(o): nargs + i for i, o in enumerate(ops_before)}
-        st, res = "ok", None
-        try:
-            c14_tv.get_pass("cse")().apply(c14_tv.xctx(), m)
-            m.verify()
-        except Exception as e:  # noqa: BLE001
-            ctx.fail(c14_tv.CALL_SITE["cse"], f"cse raises {core.exc_name(e)} on a straight-line block", {"program": text}, "cse raised", core.exc_name(e), None)
-            continue
-        ctx.ev()
-        valnum: dict[int, int] = {id(a): i for i, a in enumerate(main.body.block.args)}
-        remaining = []
-        for o in main.body.block.ops:
-            if o.name == "func.return":
-                continue
-            d = ident[id(o)]
-            valnum[id(o.results[0])] = d
-            remaining.append(f"{d}={key_of[order[d - nargs]][0]}(" + ",".join(str(valnum[id(x)]) for x in o.operands) + ")")
-        impl = "ok " + " ".join(remaining)
-        if len(remaining) < len(order):
-            ctx.nt(("cse", text))
-            ctx.count("cse.blocks_with_elimination")
-        line = f"cse {len(order)} " + " ".join(f"{num[v]} {key_of[v][0]} {len(key_of[v][1])} " + " ".join(str(num[a]) for a in key_of[v][1]) for v in order)
-        lines.append(" ".join(line.split()))
-        expect.append((text, impl))
-    outs = ctx.model("cse", lines)
-    for line, out, (text, impl) in zip(lines, outs, expect):
-        if out != impl:
-            ctx.mismatch("correspondence:C14/cse", {"program": text, "line": line}, impl, out, "real cse and the Lean CSE model keep different operations")
-    ctx.count("cse.blocks_compared", len(lines))
+# (C) CSE: see c14_cse.py
